@@ -273,13 +273,10 @@ def fixVariables (s : Sparse F) (pp : List F) : Outcome (Sparse F) := do
   let last ← fixLoop window pp.length pp s.evals
   pure ⟨s.numVars - dim, last⟩
 
-/-- `to_evaluations`, **as coded**: `.iter().map(|(&i,&v)| evaluations[i] = v).next_back()` runs the
-    closure on the *last* (largest-key) entry only -/
+/-- `to_evaluations`: `for (&i, &v) in evaluations.iter() { evaluations[i] = v }` over a zero vector
+    of length `1 << num_vars` (index panics when a key is out of range) -/
 def toEvaluations (s : Sparse F) : Outcome (List F) :=
-  let ev : List F := zeros (1 <<< s.numVars)
-  match s.evals.getLast? with
-  | none => .ok ev
-  | some (i, v) => setAt ev i v
+  writeAll s.evals (zeros (1 <<< s.numVars))
 
 /-- `Index<usize>`: stored value or `zero` (never panics, whatever the index) -/
 def index (s : Sparse F) (i : Nat) : F :=
@@ -293,19 +290,20 @@ def evaluate (s : Sparse F) (pt : List F) : Outcome F := do
   let r ← s.fixVariables pt
   pure (r.index 0)
 
-/-- `relabel(a, b, k)`: note the range check precedes the no-op test and is strict (`<`) -/
+/-- `relabel(a, b, k)`: order `a ≤ b`; no-op when `a == b || k == 0`; then the range check
+    (`<=`) and the overlap check, as in the dense `relabel_in_place` -/
 def relabel (s : Sparse F) (a b k : Nat) : Outcome (Sparse F) :=
   let (a, b) := if a > b then (b, a) else (a, b)
-  do
-    assert (decide (a + k < s.numVars) && decide (b + k < s.numVars))   -- "invalid relabel argument"
-    if a == b || k == 0 then return s
+  if a == b || k == 0 then .ok s
+  else do
+    assert (decide (a + k ≤ s.numVars) && decide (b + k ≤ s.numVars))   -- "invalid relabel argument"
     assert (a + k ≤ b)                                                   -- "overlapped swap window…"
     pure ⟨s.numVars, TreeMap.ofTuples (s.evals.map (fun iv => (swapBits iv.1 a b k, iv.2)))⟩
 
 def zero : Sparse F := ⟨0, []⟩
 
-/-- `is_zero`: `num_vars == 0 && evaluations.is_empty()` -/
-def isZero (s : Sparse F) : Bool := s.numVars == 0 && s.evals.isEmpty
+/-- `is_zero`: `num_vars == 0 && evaluations.values().all(Zero::is_zero)` -/
+def isZero (s : Sparse F) : Bool := s.numVars == 0 && s.evals.all (fun iv => isZeroF iv.2)
 
 /-- `&a + &b`: zero cases first, then merge into a hash map, drop zero sums -/
 def add (s rhs : Sparse F) : Outcome (Sparse F) := do
